@@ -133,9 +133,6 @@ def gen_inputs(c, min_exp, max_exp, eps32, rng, tier):
     if SQRT2 * 2.0 ** k < 3.4e38:
       for x in around(SQRT2 * 2.0 ** k, offs):
         pts.append(("sqrt2", x))
-    if c["quad"]:
-      # breakpoints of round(log2 sqrt x): x = 2^(2r+1) are the pow2 points already
-      pass
   # epsilon floor
   for x in around(eps32, (-8, -2, -1, 0, 1, 2, 8)):
     pts.append(("eps", x))
@@ -184,7 +181,7 @@ def run(run: core.Run, tier: str):
       "configs: 15 fixed + seeded sample of {po2, relu_po2} x bits 2..8 x max_value {None, 2^-3..2^6} x "
       "negative_slope {0, 1, 1/2, 1/4, 1/8, 1/64} x {rnd, floor} x quadratic {F, T}; inputs per config: every "
       "exponent breakpoint 2^k and sqrt(2)*2^k of the (widened) exponent window, eps, max_value, their slope "
-      "pre-images, each +-{0,1,2,8} ulp, 0, subnormals, FLT_MAX, straight-through cancellation edges, "
+      "pre-images, each +-{0,1,2,8} ulp and +-700 ulp (just outside the band), 0, subnormals, FLT_MAX, straight-through cancellation edges, "
       "log-uniform random; both signs; q(q(x)) for every point.  non-trivial = every point except the "
       "random ones.  Comparison: bit-for-bit against the model's float32 layer when one exponent is "
       "admissible, membership when the input is inside the 2^-15 log2 band.")
@@ -361,7 +358,7 @@ def judge_config(run, c, qmin, qmax, mn, mx, eps32, tags, xs, ys, r1, u, y2, r2)
       fy = core.frac(y)
       if fy not in good_codes:
         continue
-      # only outputs that are themselves in-range powers of two are fed back
+      # (only outputs of points without a float32 effect, i.e. genuine codes, are judged)
       run.case((name, "idem", float(y)))
       run.compared += 1
       if not o["match"]:
@@ -373,9 +370,8 @@ def judge_config(run, c, qmin, qmax, mn, mx, eps32, tags, xs, ys, r1, u, y2, r2)
           cause = "log_band"
         else:
           cause = sorted({a[4] for a in o["adm"]})[0] if o["adm"] else "exact"
-        if True:
-          run.count("idem_fail_" + cause)
-          run.violate("idempotent", key_of(c, cause),
-                      {"config": name, "y": float(y), "q(y)": float(yy), "model": o["adm"]}, bool(o["match"]))
+        run.count("idem_fail_" + cause)
+        run.violate("idempotent", key_of(c, cause),
+                    {"config": name, "y": float(y), "q(y)": float(yy), "model": o["adm"]}, bool(o["match"]))
 
 
